@@ -172,7 +172,7 @@ def example_reference():
         seen["o"] = orig_o()
         return seen["o"]
 
-    tmp = pathlib.Path(tempfile.mkdtemp(prefix="eko-verif-cli-ref-"))
+    tmp = pathlib.Path(tempfile.mkdtemp(prefix="verif-eko-cli-ref-"))
     try:
         cards.example.theory, cards.example.operator = theory, operator
         cards.dump = lambda card, path: None
